@@ -151,6 +151,7 @@ where
         delay: &mut DELAY,
         chromatic: &[u8],
     ) -> Result<(), SPI::Error> {
+        self.wait_until_idle(spi, delay)?;
         self.interface.cmd(spi, Command::DataStartTransmission2)?;
         self.interface.data(spi, chromatic)?;
         self.interface.cmd(spi, Command::DataStop)?;
